@@ -201,8 +201,9 @@ func runWatchCase(t *testing.T, o *Out, id, kind string, evs []watchEv, extIdx i
 				bad := fmt.Sprintf("Bad%d", ei)
 				switch ext {
 				case ".json":
+					// ("" = the file truncated to zero bytes: what a non-atomic writer leaves for a moment)
 					content = []string{"{", fmt.Sprintf(`{"name": %q, "id": 9}}`, bad), fmt.Sprintf(`{"name": %q, "id": 9} trailing`, bad),
-						fmt.Sprintf(`{"name": %q, "id": 9}{"name": "Second"}`, bad), fmt.Sprintf(`{"name": %q, "id": "nine"}`, bad)}[ei%5]
+						fmt.Sprintf(`{"name": %q, "id": 9}{"name": "Second"}`, bad), fmt.Sprintf(`{"name": %q, "id": "nine"}`, bad), "", " \n"}[(ei+e.file)%7]
 				case ".yaml":
 					content = []string{"name: [unclosed", fmt.Sprintf("name: %s\nid: 9\n  bad indent: [", bad), "- a\n- b\n: :"}[ei%3]
 				default:
@@ -220,15 +221,20 @@ func runWatchCase(t *testing.T, o *Out, id, kind string, evs []watchEv, extIdx i
 				continue
 			}
 		}
-		// wait for quiescence: the state is stable for 120 ms (at most 2 s)
+		// wait for quiescence: the state is stable for 150 ms (400 ms after the last version:
+		// the final state is compared with the model's), at most 3 s
+		quiet := 150 * time.Millisecond
+		if ei == len(evs)-1 {
+			quiet = 400 * time.Millisecond
+		}
 		last, since := nsState(nm), time.Now()
-		deadline := time.Now().Add(2 * time.Second)
+		deadline := time.Now().Add(3 * time.Second)
 		for time.Now().Before(deadline) {
 			time.Sleep(5 * time.Millisecond)
 			cur := nsState(nm)
 			if cur != last {
 				last, since = cur, time.Now()
-			} else if time.Since(since) > 120*time.Millisecond {
+			} else if time.Since(since) > quiet {
 				break
 			}
 		}
